@@ -152,7 +152,8 @@ def parse_M(rest):
         out = parts[0]
         errs = parts[1].split('|') if len(parts) > 1 and parts[1] else []
         insp = parts[2][5:] if len(parts) > 2 else ''
-        return {'kind': 'R', 'out': None if out == 'none' else out[3:], 'errs': errs, 'insp': insp}
+        ir = parts[3][3:] if len(parts) > 3 else None
+        return {'kind': 'R', 'out': None if out == 'none' else out[3:], 'errs': errs, 'insp': insp, 'ir': ir}
     if rest.startswith('P '):
         return {'kind': 'P', 'site': rest[2:]}
     return {'kind': rest.split(' ')[0]}
